@@ -16,6 +16,9 @@
 #define SAME(p, q) __CPROVER_same_object((p), (q))
 #define OLD(e) __CPROVER_old(e)
 #define RET __CPROVER_return_value
+/* CBMC models an enum without negative enumerators as signed int, GCC as unsigned int: inputs of
+ * enum type are restricted to the values on which both agree (listed as an assumption). */
+#define ENUM_OK(e) ((int)(e) >= 0)
 #define REACH(tag) __CPROVER_assert(0, "reach:" tag)
 
 /* nondet sources (names must start with nondet_) */
@@ -74,6 +77,7 @@ extern int gh_err_last;
 extern int gh_srq_n;             /* control(SRQ) invocations */
 extern unsigned gh_srq_val;
 extern int gh_reset_n;
+extern int gh_case;           /* proof-split selector set by harnesses; 0 = no restriction */
 
 size_t write_contract(scpi_t *context, const char *data, size_t len)
 __CPROVER_requires(len > 0 && data != NULL && __CPROVER_r_ok(data, len))
@@ -149,9 +153,15 @@ __CPROVER_ensures(gh_reset_n == OLD(gh_reset_n) + 1)
 /* ------------------------------------------------------------------------------------
  * error queue representation invariant (C10)
  * ---------------------------------------------------------------------------------- */
-#define QINV(f) ((f)->size >= 1 && (f)->rd >= 0 && (f)->rd < (f)->size && (f)->wr >= 0 && (f)->wr < (f)->size \
-    && (f)->count >= 0 && (f)->count <= (f)->size && (f)->wr == ((f)->rd + (f)->count) % (f)->size)
+/* ring index without division: for 0 <= x < 2*size, WRAPQ(f,x) == x % size */
+#define WRAPQ(f, x) ((int)(x) >= (int)(f)->size ? (int)(x) - (int)(f)->size : (int)(x))
+#ifndef QMAXSZ
+#define QMAXSZ 32767
+#endif
+#define QINV(f) ((f)->size >= 1 && (f)->size <= QMAXSZ && (f)->rd >= 0 && (f)->rd < (f)->size && (f)->wr >= 0 && (f)->wr < (f)->size \
+    && (f)->count >= 0 && (f)->count <= (f)->size && (f)->wr == WRAPQ(f, (int)(f)->rd + (int)(f)->count))
 #define QPRE(f) (QINV(f) && __CPROVER_is_fresh((f)->data, sizeof(scpi_error_t) * (size_t)(f)->size))
-#define QVIEW(f, k) ((f)->data[((f)->rd + (k)) % (f)->size])
+/* k-th oldest entry, 0 <= k < size */
+#define QVIEW(f, k) ((f)->data[WRAPQ(f, (int)(f)->rd + ((int)(k) >= 0 && (int)(k) < (int)(f)->size ? (int)(k) : 0))])
 
 #endif
